@@ -5,6 +5,7 @@ Decided per construction site (span algebra), plus a path analysis of the token
 dispatcher for whitespace conservation.  Not decided: that the spans produced by
 different cooperating parsers tile the input."""
 import ast
+from ..core import set_parents as set_parents_
 from ..core import (AnalysisError, short, unparse, iter_own, call_name, call_recv, kwarg,
                     is_self_attr, atomic_facts, parents, enclosing_stmt, enclosing_func)
 from .. import affine, symex, shapes
@@ -305,14 +306,7 @@ def run(ctx):
     up = nm.functions.get('_update_posposend_from_nodelist')
     if up is None:
         raise AnalysisError('anchor vanished: _update_posposend_from_nodelist')
-    loops = [l for l in iter_own(up) if isinstance(l, ast.For)]
-    okf = len(loops) == 2
-    if okf:
-        l1, l2 = sorted(loops, key=lambda l: l.lineno)
-        t1, t2 = unparse(l1), unparse(l2)
-        okf = unparse(l1.iter) == 'nodelist' and 'pos = n.pos' in t1 and 'break' in t1 and \
-            'is not None' in t1 and unparse(l2.iter) == 'reversed(nodelist)' and \
-            'pos_end = n.pos_end' in t2 and 'break' in t2 and 'is not None' in t2
+    okf = _first_last_spans(nm, up)
     ctx.decide('R01i', okf, nm, up, 'pos from the first non-None child, pos_end from the last one',
                '_update_posposend_from_nodelist does not take pos from the first and pos_end from '
                'the last non-None child', construct='_update_posposend_from_nodelist')
@@ -629,6 +623,90 @@ def run(ctx):
                        % (q_, short(a_, 40), p_[:50], e_[:50]), construct='%s: char token text %s' % (q_, short(a_, 30)))
     if n_ct < 3:
         ctx.unknown('R01t', trm, None, 'only %d char-token constructions found' % n_ct, construct='char token text')
+
+    # ---- R01v: a span does not start at a position that was only peeked at
+    ctx.rule('R01v', 'parsers: the position reported by peek_space_chars() (where the blanks in front of the reader END, nothing '
+                     'being consumed) is never remembered as the start of a span (a *pos_start field, a pos= argument): the '
+                     'content parsed next still begins with those blanks, so its first chars node would start before the node '
+                     'built around it (exercised on a built-in example on every run)', 1)
+
+    def _peeked_starts(fnode_):
+        for st_ in iter_own(fnode_):
+            if not (isinstance(st_, ast.Assign) and any(isinstance(c_, ast.Call) and call_name(c_) == 'peek_space_chars'
+                                                        for c_ in ast.walk(st_.value))):
+                continue
+            tg_ = []
+            for t_ in st_.targets:
+                tg_ += list(t_.elts) if isinstance(t_, (ast.Tuple, ast.List)) else [t_]
+            for t_ in tg_:
+                tx_ = unparse(t_)
+                if tx_ in ('_', '__'):
+                    continue
+                as_start = 'pos_start' in tx_ or any(
+                    isinstance(k_, ast.keyword) and k_.arg in ('pos', 'pos_start') and unparse(k_.value) == tx_
+                    for k_ in ast.walk(fnode_))
+                if as_start:
+                    yield st_, tx_
+    ex1_ = ast.parse('def f(self, tr, ps):\n    _, _, self.elem_pos_start = tr.peek_space_chars(ps)\n')
+    set_parents_(ex1_)
+    if len(list(_peeked_starts(ex1_.body[0]))) != 1:
+        raise AnalysisError('R01v: the peeked-start rule no longer fires on its built-in example')
+    n_pf = 0
+    for mn_, mod_ in sorted(repo.modules.items()):
+        if not (mn_.startswith('pylatexenc.latexnodes.parsers') or mn_.startswith('pylatexenc.macrospec')):
+            continue
+        for q_, f_ in sorted(mod_.functions.items()):
+            n_pf += 1
+            for st_, tx_ in _peeked_starts(f_):
+                ctx.refuted('R01v', mod_, st_, '%s remembers the end of the blanks reported by peek_space_chars() as the span start %s '
+                            '(%s): nothing was consumed, so the content parsed next begins with those blanks and its first chars '
+                            'node starts BEFORE the node that is built around it with this start -- a child outside its parent\'s span'
+                            % (q_, tx_, short(st_, 60)), construct='%s: %s from peek_space_chars' % (q_, tx_))
+    if n_pf < 20:
+        raise AnalysisError('only %d parser functions scanned for R01v' % n_pf)
+    ctx.holds('R01v', repo.mod('pylatexenc.latexnodes.parsers._stdarg'), None,
+              'no span start taken from peek_space_chars in %d parser functions (built-in example flagged)' % n_pf,
+              construct='peeked span start scan', trivial=True)
+
+    # ---- R01w: a node ends at its token only when it has no content
+    ctx.rule('R01w', 'parsers: where the end of a node is chosen between the end of its content (<content>.pos_end) and the end of '
+                     'the token that introduces it (<tok>.pos_end), the token\'s end is taken exactly when there is no content '
+                     '(`<content> is None`): under any further condition a node with content ends at its token, before its own '
+                     'children', 1)
+    n_ch = 0
+    for mn_, mod_ in sorted(repo.modules.items()):
+        if not mn_.startswith('pylatexenc.latexnodes.parsers'):
+            continue
+        for q_, f_ in sorted(mod_.functions.items()):
+            cands = []
+            for x_ in iter_own(f_):
+                if isinstance(x_, ast.IfExp):
+                    cands.append((x_, x_.test, x_.body, x_.orelse))
+                elif isinstance(x_, ast.If) and len(x_.body) == 1 and len(x_.orelse) == 1 and \
+                        isinstance(x_.body[0], ast.Assign) and isinstance(x_.orelse[0], ast.Assign) and \
+                        unparse(x_.body[0].targets[0]) == unparse(x_.orelse[0].targets[0]):
+                    cands.append((x_, x_.test, x_.body[0].value, x_.orelse[0].value))
+            for x_, t_, a_, b_ in cands:
+                if not all(isinstance(v_, ast.Attribute) and v_.attr == 'pos_end' and isinstance(v_.value, ast.Name) for v_ in (a_, b_)):
+                    continue
+                na_, nb_ = a_.value.id, b_.value.id
+                # which arm is the content: the one whose variable the test speaks about
+                tn_ = {n_.id for n_ in ast.walk(t_) if isinstance(n_, ast.Name)}
+                if na_ in tn_ and nb_ not in tn_:
+                    content, want = na_, ('%s is not None' % na_, na_)
+                elif nb_ in tn_ and na_ not in tn_:
+                    content, want = nb_, ('%s is None' % nb_, 'not %s' % nb_)
+                else:
+                    continue
+                n_ch += 1
+                ctx.decide('R01w', unparse(t_) in want, mod_, x_, '%s: token end only without content (%s)' % (q_, unparse(t_)),
+                           '%s ends the node at %s or %s depending on `%s`, which is more than "there is no content": a node whose '
+                           'content exists but fails the extra condition ends at its introducing token while its children lie '
+                           'behind that position -- children outside the span of their parent'
+                           % (q_, unparse(a_), unparse(b_), short(t_, 70)), construct='%s: end of node with optional content' % q_)
+    if not n_ch:
+        ctx.unknown('R01w', repo.mod('pylatexenc.latexnodes.parsers._stdarg'), None,
+                    'no choice between content end and token end found in the parsers', construct='end of node with optional content')
 
     # ---- R01s: the marker text is the whole text of the tokens it spans
     ctx.rule('R01s', 'LatexOptionalCharsMarkerParser: what is added to the marker text for a token is the whole text of that token '
@@ -1155,3 +1233,59 @@ def _node_spans(fn, methods, order_calls=()):
             ordered = bool(curs) and curs[-1] > last_parse
         out.append((ptxt, petxt, ordered))
     return out
+
+
+def _first_last_spans(nm, up):
+    """`pos` is taken from the first non-None element of the list and `pos_end` from the last one: as loop variables of
+    `for n in L` / `for n in reversed(L)` guarded by `n is not None` and left by break, or as the result of a
+    first-non-None search (a module-level helper `for x in it: if x is not None: return x`, or next(<generator>, None))
+    over L / reversed(L)"""
+    param = up.args.args[-1].arg if up.args.args else 'nodelist'
+
+    def direction(it):
+        t = unparse(it)
+        if t == param:
+            return 'fwd'
+        if t in ('reversed(%s)' % param, '%s[::-1]' % param):
+            return 'bwd'
+        return None
+
+    def is_first_non_none(h):
+        loops = [l for l in iter_own(h) if isinstance(l, ast.For) and isinstance(l.target, ast.Name)]
+        if len(loops) != 1 or not h.args.args or unparse(loops[0].iter) != h.args.args[0].arg:
+            return False
+        v = loops[0].target.id
+        rets = [r for r in ast.walk(loops[0]) if isinstance(r, ast.Return)]
+        return len(rets) == 1 and unparse(rets[0].value) == v and any(
+            pol and unparse(t) == v + ' is not None' for t, pol in atomic_facts(rets[0]))
+
+    src = {}
+    for a in ast.walk(up):
+        if not (isinstance(a, ast.Assign) and len(a.targets) == 1 and isinstance(a.targets[0], ast.Name)
+                and a.targets[0].id in ('pos', 'pos_end') and isinstance(a.value, ast.Attribute)
+                and a.value.attr == a.targets[0].id and isinstance(a.value.value, ast.Name)):
+            continue
+        var = a.value.value.id
+        d = None
+        for p_ in parents(a):
+            if isinstance(p_, ast.For) and isinstance(p_.target, ast.Name) and p_.target.id == var:
+                guarded = any(pol and unparse(t) == var + ' is not None' for t, pol in atomic_facts(a))
+                left = any(isinstance(b, ast.Break) for b in ast.walk(p_))
+                d = direction(p_.iter) if guarded and left else None
+        if d is None:
+            defs = [x.value for x in ast.walk(up) if isinstance(x, ast.Assign) and len(x.targets) == 1
+                    and isinstance(x.targets[0], ast.Name) and x.targets[0].id == var]
+            if len(defs) == 1 and isinstance(defs[0], ast.Call) and any(
+                    pol and unparse(t) == var + ' is not None' for t, pol in atomic_facts(a)):
+                c = defs[0]
+                if isinstance(c.func, ast.Name) and c.func.id in nm.functions and len(c.args) == 1 and \
+                        is_first_non_none(nm.functions[c.func.id]):
+                    d = direction(c.args[0])
+                elif isinstance(c.func, ast.Name) and c.func.id == 'next' and len(c.args) == 2 and \
+                        isinstance(c.args[0], ast.GeneratorExp) and len(c.args[0].generators) == 1:
+                    g = c.args[0].generators[0]
+                    if isinstance(g.target, ast.Name) and unparse(c.args[0].elt) == g.target.id and \
+                            [unparse(i) for i in g.ifs] == [g.target.id + ' is not None']:
+                        d = direction(g.iter)
+        src.setdefault(a.targets[0].id, []).append(d)
+    return src.get('pos') == ['fwd'] and src.get('pos_end') == ['bwd']
